@@ -517,7 +517,7 @@ func runC09(p *an.Prog, r *an.Run, tier string) {
 			}
 			n++
 			recv := c.Common().Value
-			d := p.Derives(1, recv)
+			d := p.DerivesIn(closeFn, 3, recv) // a home other than the helper itself: its parameters are bound to the arguments at their call sites
 			fromReg := false
 			for _, nd := range d.Nodes {
 				if lk, ok := nd.(*ssa.Lookup); ok && memMapField(lk.X) == "remoteHosts" {
